@@ -5,12 +5,14 @@
    got = [k |-> "user", i |-> j] when it is user frame j (0 = the issuing statement, j = the
    j-th wrapper; for a cell with site # "go" the frames sit behind //line directives and the
    decoded file must be EXACTLY the hardened file name the runtime reports for the frame), k = "lib" for a frame of the library / log / log/slog / runtime, "none" when
-   it is no frame of the stack, "missing" when the record has no caller member.
+   it is no frame of the stack, "missing" when the record has no caller member, "attr" when what
+   the last-wins decoder finds under the name is the attribute of the PROGRAM (cells with ua # "none":
+   the record, the logger or the log/slog handler carries an attribute keyed `caller`).
 
    One line is consumed per step (a monitor).  A line is accepted when its cell is a cell of the
-   specification and got = AttrD(cell, {}), the frame the documented library reports - which
+   specification and got = SeenD(cell, {}), what a reader of the documented library's record sees - which
    Caller.tla's invariants show to be the frame the property demands.  A line that instead
-   equals AttrD(cell, {d}) for a named deviation d is collected in `dev`; anything else in
+   equals SeenD(cell, {d}) for a named deviation d is collected in `dev`; anything else in
    `bad` together with the expected frame (at most MaxReport reproducers per entry point /
    deviation, all are counted).  The verdict is printed when the log is consumed.              *)
 EXTENDS Caller
@@ -22,15 +24,15 @@ VARIABLES i, nok, bad, nbad, badn, dev, devn
 TLog == ndJsonDeserialize(TraceFile)
 
 CellOf(e) == [ep |-> e.ep, fam |-> e.fam, fmt |-> e.fmt, kind |-> e.kind, inl |-> e.inl, via |-> e.via,
-              skip |-> e.skip, other |-> e.other, depth |-> e.depth, site |-> e.site]
+              skip |-> e.skip, other |-> e.other, depth |-> e.depth, site |-> e.site, ua |-> e.ua]
 GotOf(e) == [k |-> e.got.k, i |-> e.got.i]
 
 WellFormed(e) ==
-    /\ {"id", "ep", "fam", "fmt", "kind", "inl", "via", "skip", "other", "depth", "site", "got"} \subseteq DOMAIN e
+    /\ {"id", "ep", "fam", "fmt", "kind", "inl", "via", "skip", "other", "depth", "site", "ua", "got"} \subseteq DOMAIN e
     /\ e.fam \in Families
     /\ IsCell(CellOf(e))
 
-DevsMatching(c, g) == {d \in AllDevs : AttrD(c, {d}) # AttrD(c, {}) /\ g = AttrD(c, {d})}
+DevsMatching(c, g) == {d \in AllDevs : SeenD(c, {d}) # SeenD(c, {}) /\ g = SeenD(c, {d})}
 
 TInit == /\ cell \in {CHOOSE c \in CellsOver({CHOOSE ek \in EPKinds : TRUE}) : TRUE} /\ phase = "cell"
          /\ i = 1 /\ nok = 0 /\ bad = <<>> /\ nbad = 0 /\ badn = [n \in {e.name : e \in EPs} |-> 0] /\ dev = <<>> /\ devn = [d \in AllDevs |-> 0]
@@ -46,7 +48,7 @@ TNext ==
                                                            want |-> NoFrame]) ELSE bad
        ELSE LET c == CellOf(e)  g == GotOf(e) IN
             /\ cell' = c
-            /\ IF g = AttrD(c, {}) /\ g = Want(c)
+            /\ IF g = SeenD(c, {}) /\ g = Want(c)
                THEN nok' = nok + 1 /\ UNCHANGED <<bad, nbad, badn, dev, devn>>
                ELSE IF DevsMatching(c, g) # {}
                THEN /\ dev' = IF devn[CHOOSE d \in DevsMatching(c, g) : TRUE] < MaxReport
